@@ -787,6 +787,27 @@ def isControl (n : Bytes) : Bool :=
 def downIf (resp : Int) (_c : Ctx) (v : Value) : Value :=
   if resp == 2 then down v else v
 
+/-- SINTERCARD as Redis reads it: the first numkeys words are keys, whatever they spell -/
+def sintercardByNumkeys (args : List Bytes) : Option Cmd :=
+  match args with
+  | nkb :: k :: r =>
+    match int? nkb with
+    | none => none
+    | some nk =>
+      let all := k :: r
+      if 0 < nk && nk.toNat ≤ all.length then
+        match all.drop nk.toNat with
+        | [] => some (.sintercard nk all 0)
+        | [t, l] => if lowerB t == sb "limit" then (int? l).map fun lim => .sintercard nk (all.take nk.toNat) lim else none
+        | _ => none
+      else some (.sintercard nk all 0)      -- numkeys out of step: the command function reports it
+  | _ => none
+
+/-- argument parsing with the one deviation of the grammar-driven parser that is kept as a quirk (D88) -/
+def parseCmdQ (q : Quirks) (name : Bytes) (args : List Bytes) : Option Cmd :=
+  if !q.sintercardLimitGreedy && lowerB name == sb "sintercard" then sintercardByNumkeys args
+  else parseCmd name args
+
 /-- run the queued commands of EXEC in order -/
 def execQueue (c : Ctx) (conn : Nat) : List Queued → List Value → State → List Value → List Match → List (Nat × Bytes × Nat) →
     State × List Value × List Match × List (Nat × Bytes × Nat) × Option String
@@ -799,7 +820,7 @@ def execQueue (c : Ctx) (conn : Nat) : List Queued → List Value → State → 
         -- queued, executed by the implementation, not judged by the model
         execQueue c conn r impls.tail s (.nil :: vs) (.custom "any" :: hs) ps
       else
-      match parseCmd name args with
+      match parseCmdQ c.q name args with
       | none => execQueue c conn r impls.tail s (errArity name :: vs) (.exact :: hs) ps
       | some cmd =>
         -- the implementation reads its clock again for every queued command; `impls` are the
@@ -896,7 +917,7 @@ def dispatch (c : Ctx) (s : State) (conn : Nat) (argv : List Bytes) : Out :=
           { st := s.setSession conn (if !c.q.queueErrorNoAbort then { ses with queueErr := true } else ses),
             reply := errArity name }
     else
-    match parseCmd name args with
+    match parseCmdQ c.q name args with
     | none =>
       -- The arguments are wrong. Inside MULTI Redis refuses some of these while queueing (arity:
       -- EXEC will abort) and queues others (option syntax: the error is the command's reply in
